@@ -41,7 +41,9 @@ predefine_macro(CPPParser &parser, const string &option) {
     macro_name = option.substr(0, eq);
     macro_def = option.substr(eq + 1);
   } else {
+    // -DNAME is the same as -DNAME=1, as for a compiler.
     macro_name = option;
+    macro_def = "1";
   }
 
   cerr << "Predefining " << macro_name << " as " << macro_def << "\n";
